@@ -53,7 +53,7 @@ Step ==
             LET p == op[2]
                 should == status[p] = "new" /\ Valid(p)
                 okOutcome == IF should THEN S.outcome = "ok"
-                             ELSE IF status[p] = "new" THEN S.outcome = "SelectorError"   \* refused selector
+                             ELSE IF status[p] = "new" THEN S.outcome = RefusalClass(p)   \* refused selector
                              ELSE S.outcome # "ok"                                         \* second activation
                 st2 == IF should THEN [status EXCEPT ![p] = "active"] ELSE status
             IN /\ status' = st2 /\ expect' = expect /\ nonlifo' = nonlifo
